@@ -87,7 +87,9 @@ func runReplays(e *Engine, repo, hdir string, reps []*pendingReplay) {
 		return
 	}
 	defer os.RemoveAll(tmp)
+	os.Setenv("VERIF_SEAM_DIR", tmp)
 	_, _, files, err := buildOverlay(repo, hdir)
+	os.Unsetenv("VERIF_SEAM_DIR")
 	if err != nil {
 		for _, r := range reps {
 			r.err = err.Error()
@@ -130,13 +132,34 @@ func runReplays(e *Engine, repo, hdir string, reps []*pendingReplay) {
 				if ent.IsDir() || !strings.HasSuffix(n, ".go") || strings.HasSuffix(n, "_test.go") {
 					continue
 				}
-				src, err := os.ReadFile(filepath.Join(repo, pkg, n))
-				if err != nil || !strings.Contains(string(src), "rand.Uint32()") {
+				srcPath := filepath.Join(repo, pkg, n)
+				if alt, ok := replace[srcPath]; ok {
+					srcPath = alt
+				}
+				src, err := os.ReadFile(srcPath)
+				if err != nil {
 					continue
 				}
-				txt := strings.ReplaceAll(string(src), "rand.Uint32()", "zzverifrt.RandU32()")
+				txt := string(src)
+				changed := false
+				if strings.Contains(txt, "rand.Uint32()") {
+					txt = strings.ReplaceAll(txt, "rand.Uint32()", "zzverifrt.RandU32()") + "\nvar _ = rand.Uint32\n"
+					changed = true
+				}
+				if strings.Contains(txt, "uuid.New()") {
+					txt = strings.ReplaceAll(txt, "uuid.New()", "zzverifrt.UUIDNew()") + "\nvar _ = uuid.New\n"
+					changed = true
+				}
+				// the virtual clock: drivers read time through the replay runtime so that RTT obligations replay exactly
+				if strings.Contains(txt, "time.Now()") || strings.Contains(txt, "time.Since(") {
+					txt = strings.ReplaceAll(txt, "time.Now()", "zzverifrt.TimeNow()")
+					txt = strings.ReplaceAll(txt, "time.Since(", "zzverifrt.TimeSince(") + "\nvar _ = time.Now\n"
+					changed = true
+				}
+				if !changed {
+					continue
+				}
 				txt = strings.Replace(txt, "import (", "import (\n\tzzverifrt \""+verifPkg+"\"", 1)
-				txt += "\nvar _ = rand.Uint32\n"
 				cp := filepath.Join(tmp, sanitize(pkg)+"_"+n)
 				os.WriteFile(cp, []byte(txt), 0o644)
 				replace[filepath.Join(repo, pkg, n)] = cp
